@@ -9,7 +9,9 @@
    1, 2, 16, on C09 histories, compared event by event with the extracted sequential model (same comparison as C09) and
    judged by the K2 checkers; the sequential build's trace is compared too (informational: after an event whose outcome
    legitimately depends on unordered_set iteration order the two builds may take different but valid paths).
-4. thorough tier: ThreadSanitizer build on a subset (support only).
+4. every tier: ThreadSanitizer build of harness/h_pivot.cpp -- stress of thread_pool's enqueue / join (pools of 1 and 2 workers,
+   plain-int completion flags read after join()) and a pivot-heavy lra_theory run (3 rounds x 12 pivots over ~300 rows); a TSan
+   report, an early-returning join or a row / watch mismatch is a violation. Thorough tier: larger runs + TSan on C09 histories.
 """
 import json
 import os
@@ -37,6 +39,7 @@ def prebuild():
     regenerate()
     T.build_all(vlib)
     T.build_all(vlib, parallel=True)
+    tsan_build("h_pivot_tsan", "h_pivot.cpp")
 
 
 def par_differential(ctx, n, pools=(1, 2, 16)):
@@ -104,12 +107,51 @@ def par_differential(ctx, n, pools=(1, 2, 16)):
     return found, stats
 
 
-def tsan(ctx, n=40):
+def tsan_build(name, harness):
     inc = os.path.join(vlib.BUILD, "c20_inc")
     os.makedirs(inc, exist_ok=True)
     vlib.write_if_changed(os.path.join(inc, "concurrent_export.h"), "#pragma once\n#define CONCURRENT_EXPORT\n")
-    exe, log = vlib.cxx_build("h_lra_tsan", "h_lra.cpp", vlib.SMT_SRC + vlib.CONC_SRC, vlib.SMT_INC, defines=("PARALLELIZE",), extra_inc=[inc],
-                              flags=("-O1", "-g", "-fsanitize=thread", "-pthread"))
+    return vlib.cxx_build(name, harness, vlib.SMT_SRC + vlib.CONC_SRC, vlib.SMT_INC, defines=("PARALLELIZE",), extra_inc=[inc],
+                          flags=("-O1", "-g", "-fsanitize=thread", "-pthread"))
+
+
+def tsan_quick(ctx):
+    """Runtime support, every tier (~10-40 s): ThreadSanitizer build of harness/h_pivot.cpp -- (1) stress of thread_pool's
+    enqueue / join with pools of 1 and 2 workers (tasks write plain ints, the producer reads them after join()), (2) a
+    pivot-heavy lra_theory run on the PARALLELIZE build (3 rounds x 12 pivots over ~300 rows, pools 2 and 4). A TSan report,
+    a join() that returned before its tasks finished, or a row / watch-set mismatch is a violation with the run as input."""
+    exe, log = tsan_build("h_pivot_tsan", "h_pivot.cpp")
+    if not exe:
+        ctx.violation("build:h_pivot_tsan", {"kind": "build-failed", "log": log[-2000:]}, no_input=True)
+        return True
+    runs = [["stress", "6", "5000"], ["stress", "3", "12000"], ["stress", "12", "2500"], ["lra", "3", "300", "12", "2"], ["lra", "3", "300", "12", "4"], ["lra", "3", "400", "12", "16"]]
+    if ctx.thorough:
+        runs += [["stress", "8", "6000"], ["lra", "6", "500", "12", "16"], ["lra", "6", "400", "12", "1"]]
+    found = False
+    summary = []
+    for cmd in runs:
+        r = vlib.run([exe] + cmd, timeout=240 if ctx.thorough else 60, env={"TSAN_OPTIONS": "halt_on_error=0 report_signal_unsafe=0"})
+        reports = (r.err or "").count("WARNING: ThreadSanitizer")
+        out = r.out or ""
+        early = "EARLY-JOIN" in out
+        mism = ("ROW-MISMATCH" in out) or ("WATCH-MISMATCH" in out)
+        finished = "DONE" in out
+        summary.append({"cmd": " ".join(cmd), "tsan_reports": reports, "early_join": early, "mismatch": mism, "finished": finished,
+                        "rc": r.rc, "secs": round(r.secs, 1), "last": out.strip().split("\n")[-1][:160] if out.strip() else ""})
+        if reports or early or mism or not finished:
+            sig = "par:tsan" if reports else "par:join-returned-early" if early else "par:row-mismatch" if mism else "par:hang-or-crash"
+            if not found:
+                ctx.violation(sig, {"kind": "runtime-support-stage-failed", "failing_input": "build/h_pivot_tsan (harness/h_pivot.cpp, -fsanitize=thread -DPARALLELIZE) " + " ".join(cmd),
+                                    "tsan_reports": reports, "early_join": early, "mismatch": mism, "finished": finished, "rc": r.rc,
+                                    "stdout_tail": out[-800:], "first_tsan_report": (r.err or "")[:3500]})
+            found = True
+            break           # one concrete failing run is enough; the remaining runs would only burn their timeouts
+    ctx.cov["tsan_quick"] = summary
+    return found
+
+
+def tsan(ctx, n=40):
+    exe, log = tsan_build("h_lra_tsan", "h_lra.cpp")
     if not exe:
         ctx.cov["tsan"] = "build failed: " + log[-300:]
         return False
@@ -128,7 +170,7 @@ def run(ctx):
     cov = ctx.cov
     try:
         text, rep, changed = regenerate()
-        cov["footprint"] = {"entries": rep["entries"], "notes": rep["notes"], "pool": rep["pool"], "join_after_enqueue": rep["join_after_enqueue"],
+        cov["footprint"] = {"entries": rep["entries"], "notes": rep["notes"], "pool": rep["pool"], "pool_accesses": rep["pool_accesses"], "join_after_enqueue": rep["join_after_enqueue"],
                             "regenerated_changed": changed}
         ref = os.path.join(vlib.COQ, "gen_ref/Gen_pivot_footprint.v.ref")
         cov["footprint"]["same_as_reference"] = os.path.exists(ref) and open(ref).read() == text
@@ -139,6 +181,10 @@ def run(ctx):
     found = [False]
 
     def search(res):
+        f1 = tsan_quick(ctx)
+        if f1:              # concrete failing input found by the runtime stage
+            found[0] = True
+            return True
         f, st = par_differential(ctx, 150 if not ctx.thorough else 1500)
         cov["search_after_broken_obligation"] = st
         found[0] = f
@@ -146,11 +192,14 @@ def run(ctx):
     if translated:
         res = vlib.proof_stage(ctx, search=search)
     else:
+        f1 = tsan_quick(ctx)
         f, st = par_differential(ctx, 150)
-        if not f:
+        if not (f or f1):
             ctx.violation("translator:pivot-footprint", {"kind": "translator-failed", "error": cov["footprint"]["error"],
                                                          "theorem": "tie: tools/lra_footprint.py on lra_theory::pivot"}, no_input=True)
         return
+    if not found[0] and res.get("ok"):
+        found[0] = tsan_quick(ctx)
     if not found[0]:
         f, st = par_differential(ctx, 150 if not ctx.thorough else 2500)
         cov["parallel_vs_sequential"] = st
